@@ -401,6 +401,8 @@ _NUMERIC_HELPER_CALLERS = {
     # #create_memzone takes two plain literals matched by the numeric pattern
     'bespokeasm.assembler.line_object.preprocessor_line.create_memzone.CreateMemzoneLine.__init__',
     'bespokeasm.utilities.is_string_numeric', 'bespokeasm.utilities.parse_numeric_string',
+    # a label name that reads as a number is refused (it is only tested, never converted)
+    'bespokeasm.assembler.label_scope.LabelScope.set_label_value',
 }
 
 
